@@ -4,7 +4,7 @@ Unit: Interpreter.execute_once, Statechart.add_state/add_transition, export_to_y
 Two interpreters run in lock step on the same chart declared in two different ways (canonical order
 through the API versus a permuted order through the API or through a YAML document), sharing the same
 symbolic guard bits.  Solver-enumerated: chart, permutation of sibling-state and transition declaration
-order, construction route, event history.  Obligation per step: same consumed event, transitions,
+order, construction route (API, YAML, or editing: states attached elsewhere and moved into place), event history.  Obligation per step: same consumed event, transitions,
 exit and entry lists, sent events and context, or the same kind of error.
 Hash-seed clause: the solver cannot quantify over PYTHONHASHSEED; the same exploration is re-executed
 in subprocesses under several seeds and the per-path trace digests are compared (a concrete
